@@ -13,7 +13,7 @@ import (
 
 func relayCfg(id, tier string) relay.Config {
 	if tier == "script" {
-		return relay.Config{Prop: id, Chains: 3, MaxSends: 12}
+		return relay.Config{Prop: id, Chains: 3, MaxSends: 14}
 	}
 	if strings.HasSuffix(tier, "/big") {
 		// every ERC-20 amount is a multiple of 2^64+1: above 64 bits, with non-zero low bits (truncation anywhere on the way shows)
@@ -50,7 +50,7 @@ func relayCfg(id, tier string) relay.Config {
 	case "C03":
 		c := relay.Config{Prop: id, Chains: 2, MaxSends: 2, Depth: 12,
 			Sends: []string{"A B erc20 3", "A B native 1", "B A back 1", "A B erc20+callok 1", "A B erc20+callrevert 1", "A B erc20+calleoa 1", "A B erc20+hookfail 1", "A B erc20+agentbad 1", "A B native+ctor 1"},
-			RecvForms: []string{"g1"}, AckForms: []string{"g1"}}
+			RecvForms: []string{"g1", "g3"}, AckForms: []string{"g1"}}
 		if tier == "thorough" {
 			c.MaxSends, c.Depth = 3, 16
 			c.Sends = append(c.Sends, "B A erc20 3", "A B native+hookfail 3")
@@ -67,7 +67,7 @@ func relayCfg(id, tier string) relay.Config {
 	case "C05":
 		c := relay.Config{Prop: id, Chains: 2, MaxSends: 2, Depth: 12,
 			Sends: []string{"A B erc20 3", "A B erc20+callrevert 1", "B A native 3", "A B feeonly1 1", "A B erc20+hookfail 1", "A B erc20+agentbad 1"},
-			RecvForms: []string{"g1", "g2"}, AckForms: []string{"g1", "g2", "old", "conflict", "early", "dup2", "altpkt"}}
+			RecvForms: []string{"g1", "g2", "g3"}, AckForms: []string{"g1", "g2", "old", "conflict", "early", "dup2", "altpkt"}}
 		if tier == "thorough" {
 			c.MaxSends, c.Depth = 3, 16
 		}
